@@ -9,7 +9,7 @@ from ..absint import Interp, Domain, OPAQUE
 from ..front import AnalysisError, dotted, fname, is_self_attr, src, norm, walk_no_nested
 
 TOL = Fraction(1, 10 ** 10)
-LEVEL = "proof"
+LEVEL = "other"
 QUICK_MAX_TREE_ORDER = 14
 THOROUGH_MAX_TREE_ORDER = 14
 
